@@ -298,6 +298,8 @@ def chain_rules(rep, prog):
                 kinds["back"] = tail
             elif tuple(s_.idx[1]) == (k, k1) and cond == negate_pred(before):
                 kinds["fwd"] = tail
+            elif tuple(s_.idx[1]) in ((k1, k), (k, k1)) and cond is not None and cond[0] in (">0", ">=0"):
+                kinds["wrong-condition"] = "%s under %s" % (fmt(s_.idx)[:40], pred_fmt(cond))
             else:
                 kinds["?"] = fmt(s_.idx)[:60]
         if len(sts) == 2 and set(kinds) == {"back", "fwd"} and kinds["back"] == kinds["fwd"]:
